@@ -9,6 +9,7 @@ import (
 	"hash/fnv"
 	"sort"
 	"strings"
+	"time"
 
 	"golang.org/x/tools/go/ssa"
 )
@@ -35,6 +36,10 @@ type Engine struct {
 	frozenRes   map[*ssa.Global]string
 	pureMemo    map[*ssa.Function]bool
 	pendingWF   []*Term
+	pendingExt  []extent
+	pendingVals []pendingVal
+	curExt      []extent
+	keepingCall bool
 	TypeInvs    []*TypeInv
 	NonNil      map[string]bool
 	Frozen      map[string]bool
@@ -66,6 +71,9 @@ type rootCtx struct {
 	modRanges []modRange
 	variant  *Term
 	used     map[string]bool
+	deadline time.Time
+	keepRegions []*Term
+	keepTargets []Slice // pointer arrays whose pointees are assumed unchanged by calls through function parameters
 	inputs   []InputTerm
 	outputs  []InputTerm
 	frozenAssumed map[*ssa.Global]bool
@@ -76,13 +84,20 @@ type State struct {
 	pc    []*Term
 	facts []*QFact
 	path  []string
+	ext   []extent // memory known to be valid (slices/strings seen, allocations): for `mem` obligations
+	calls *Term    // ghost: number of calls made so far through function-typed parameters of the root
 }
+
+// extent: bytes [Lo, Hi) of region R are valid memory.
+type extent struct{ R, Lo, Hi *Term }
 
 func (s *State) clone() *State {
 	n := &State{heap: s.heap}
 	n.pc = append([]*Term(nil), s.pc...)
 	n.facts = append([]*QFact(nil), s.facts...)
 	n.path = append([]string(nil), s.path...)
+	n.ext = append([]extent(nil), s.ext...)
+	n.calls = s.calls
 	return n
 }
 
@@ -101,6 +116,7 @@ type frame struct {
 	loops map[*ssa.BasicBlock]*loopInfo
 	cuts  map[*ssa.BasicBlock]*loopCut
 	dry   *dryRun
+	raw   map[ssa.Value]bool // pointers derived from unsafe arithmetic / loaded unsafe.Pointer
 }
 
 func (f *frame) clone() *frame {
@@ -150,7 +166,7 @@ type InputTerm struct {
 func NewEngine(p *Program) *Engine {
 	return &Engine{P: p, C: NewCtx(), Specs: map[string]*FuncSpec{}, Pures: map[string]*PureFn{}, Recs: map[string]*PureFn{},
 		typeIDs: map[string]uint32{}, typeByID: map[uint32]types.Type{}, globals: map[*ssa.Global]uint32{},
-		funcIDs: map[*ssa.Function]uint64{}, funcByID: map[uint64]*ssa.Function{}, MaxPaths: 4000, InlineMax: 6,
+		funcIDs: map[*ssa.Function]uint64{}, funcByID: map[uint64]*ssa.Function{}, MaxPaths: 1500, InlineMax: 6,
 		strRegions: map[string]uint32{}, strByRegion: map[uint32]string{}, quants: map[*Term]*quantMark{},
 		NonNil: map[string]bool{}, Frozen: map[string]bool{}}
 }
@@ -219,11 +235,22 @@ func (e *Engine) obligID(fr *frame, kind, detail string) string {
 	return id
 }
 
+type pendingVal struct {
+	v Value
+	t types.Type
+}
+
 func (e *Engine) flushWF(st *State) {
 	for _, t := range e.pendingWF {
 		st.assume(t)
 	}
 	e.pendingWF = e.pendingWF[:0]
+	st.ext = append(st.ext, e.pendingExt...)
+	e.pendingExt = e.pendingExt[:0]
+	for _, pv := range e.pendingVals {
+		e.addExtents(st, pv.v, pv.t)
+	}
+	e.pendingVals = e.pendingVals[:0]
 }
 
 func (e *Engine) oblige(st *State, fr *frame, kind, detail string, goal *Term, pos token.Pos) {
@@ -334,6 +361,7 @@ func (e *Engine) runFunc(fn *ssa.Function, args []Value, st *State, parent *fram
 		fr.dry = parent.dry
 	}
 	fr.loops = findLoops(fn)
+	fr.raw = rawPointers(fn)
 	for i, p := range fn.Params {
 		fr.regs[p] = args[i]
 	}
@@ -390,6 +418,9 @@ func (e *Engine) countPath() {
 	e.cur.paths++
 	if e.cur.paths > e.MaxPaths {
 		unsupported("path limit %d exceeded", e.MaxPaths)
+	}
+	if e.cur.paths%16 == 0 && !e.cur.deadline.IsZero() && time.Now().After(e.cur.deadline) {
+		unsupported("per-function time budget exceeded (%d paths so far)", e.cur.paths)
 	}
 }
 
@@ -482,6 +513,7 @@ func (e *Engine) step(fr *frame, in ssa.Instruction, st *State) []fork {
 		r := e.newRegion()
 		t := x.Type().Underlying().(*types.Pointer).Elem()
 		c.zeroRegion(&st.heap, r, t)
+		st.ext = append(st.ext, extent{r, c.Const(64, 0), c.Const(64, uint64(sizeof(t)))})
 		fr.regs[x] = Ptr{r, c.Const(64, 0)}
 	case *ssa.BinOp:
 		fr.regs[x] = e.binop(fr, st, x)
@@ -490,6 +522,9 @@ func (e *Engine) step(fr *frame, in ssa.Instruction, st *State) []fork {
 	case *ssa.Store:
 		p := toPtr(e.get(fr, x.Addr))
 		e.checkDeref(fr, st, p, x.Addr, x.Pos(), true, x.Val.Type())
+		if fr.raw[x.Addr] {
+			e.memOblig(fr, st, p, sizeof(x.Val.Type()), "store:"+e.exprAt(x.Pos()), x.Pos())
+		}
 		v := e.get(fr, x.Val)
 		if sc, ok := v.(Scalar); ok && sc.R != nil {
 			// uintptr with provenance stored to memory: provenance is dropped
@@ -857,8 +892,11 @@ func (e *Engine) unop(fr *frame, st *State, x *ssa.UnOp) Value {
 	case token.MUL:
 		p := toPtr(v)
 		e.checkDeref(fr, st, p, x.X, x.Pos(), false, x.Type())
+		if fr.raw[x.X] {
+			e.memOblig(fr, st, p, sizeof(x.Type()), "load:"+e.exprAt(x.Pos()), x.Pos())
+		}
 		r := c.Load(&st.heap, p, 0, x.Type())
-		e.assumeLoaded(st, r)
+		e.assumeLoaded(st, r, x.Type())
 		if g, ok := x.X.(*ssa.Global); ok {
 			e.assumeGlobal(st, g, r)
 		}
@@ -868,12 +906,168 @@ func (e *Engine) unop(fr *frame, st *State, x *ssa.UnOp) Value {
 	return nil
 }
 
-func (e *Engine) assumeLoaded(st *State, v Value) {
+func (e *Engine) assumeLoaded(st *State, v Value, t types.Type) {
 	var as []*Term
 	e.C.wfAssume(v, &as)
 	for _, a := range as {
 		st.assume(a)
 	}
+	e.addExtents(st, v, t)
+}
+
+// addExtents records the memory spans of the slices and strings contained in v as valid.
+func (e *Engine) addExtents(st *State, v Value, t types.Type) {
+	c := e.C
+	add := func(r, lo, hi *Term) {
+		for _, x := range st.ext {
+			if x.R == r && x.Lo == lo && x.Hi == hi {
+				return
+			}
+		}
+		st.ext = append(st.ext, extent{r, lo, hi})
+	}
+	switch x := v.(type) {
+	case Slice:
+		es := int64(1)
+		if t != nil {
+			if sl, ok := t.Underlying().(*types.Slice); ok {
+				es = sizeof(sl.Elem())
+			}
+		} else {
+			es = 0 // unknown element size: only the byte view by cap is safe when es==1; use len*1 lower bound
+		}
+		if es == 0 {
+			add(x.P.R, x.P.O, c.Add(x.P.O, x.Cap))
+		} else {
+			add(x.P.R, x.P.O, c.Add(x.P.O, c.Mul(x.Cap, c.Const(64, uint64(es)))))
+		}
+	case Str:
+		add(x.P.R, x.P.O, c.Add(x.P.O, x.Len))
+	case Struct:
+		var st0 *types.Struct
+		if t != nil {
+			st0, _ = t.Underlying().(*types.Struct)
+		}
+		for i, f := range x.F {
+			var ft types.Type
+			if st0 != nil {
+				ft = st0.Field(i).Type()
+			}
+			e.addExtents(st, f, ft)
+		}
+	case Tuple:
+		for _, f := range x.E {
+			e.addExtents(st, f, nil)
+		}
+	}
+}
+
+// memOblig: an access of size bytes through a pointer of unsafe provenance must fall inside memory
+// known to be valid on this path.
+func (e *Engine) memOblig(fr *frame, st *State, p Ptr, size int64, detail string, pos token.Pos) {
+	c := e.C
+	if isFreshRegion(p.R) && p.O.IsConst() {
+		// constant offset into an allocation of this call: decide directly
+		for _, x := range st.ext {
+			if x.R == p.R && x.Lo.IsConst() && x.Hi.IsConst() && x.Lo.Val <= p.O.Val && p.O.Val+uint64(size) <= x.Hi.Val {
+				return
+			}
+		}
+	}
+	end := c.Add(p.O, c.Const(64, uint64(size)))
+	var alts []*Term
+	for _, x := range st.ext {
+		if c.regionsDistinct(x.R, p.R) {
+			continue
+		}
+		alts = append(alts, c.And(c.Eq(p.R, x.R), c.Ule(x.Lo, p.O), c.Ule(end, x.Hi), c.Ule(p.O, end)))
+	}
+	e.oblige(st, fr, "mem", detail, c.Or(alts...), pos)
+}
+
+var rawCache = map[*ssa.Function]map[ssa.Value]bool{}
+
+func isUnsafePtr(t types.Type) bool {
+	b, ok := t.Underlying().(*types.Basic)
+	return ok && b.Kind() == types.UnsafePointer
+}
+
+// rawPointers: SSA values that are pointers of unsafe provenance (static fixpoint, DESIGN §3.3).
+func rawPointers(fn *ssa.Function) map[ssa.Value]bool {
+	if m, ok := rawCache[fn]; ok {
+		return m
+	}
+	raw := map[ssa.Value]bool{}
+	for _, p := range fn.Params {
+		if isUnsafePtr(p.Type()) {
+			raw[p] = true
+		}
+	}
+	for _, fv := range fn.FreeVars {
+		if isUnsafePtr(fv.Type()) {
+			raw[fv] = true
+		}
+	}
+	for changed := true; changed; {
+		changed = false
+		mark := func(v ssa.Value) {
+			if !raw[v] {
+				raw[v] = true
+				changed = true
+			}
+		}
+		for _, b := range fn.Blocks {
+			for _, in := range b.Instrs {
+				switch x := in.(type) {
+				case *ssa.Convert:
+					if bt, ok := x.X.Type().Underlying().(*types.Basic); ok && bt.Kind() == types.Uintptr && isUnsafePtr(x.Type()) {
+						mark(x)
+					} else if raw[x.X] {
+						mark(x)
+					}
+				case *ssa.ChangeType:
+					if raw[x.X] {
+						mark(x)
+					}
+				case *ssa.UnOp:
+					if x.Op == token.MUL && isUnsafePtr(x.Type()) {
+						mark(x)
+					}
+				case *ssa.Call:
+					if isUnsafePtr(x.Type()) {
+						mark(x)
+					}
+					if bi, ok := x.Common().Value.(*ssa.Builtin); ok && bi.Name() == "Add" {
+						mark(x)
+					}
+				case *ssa.Extract:
+					if isUnsafePtr(x.Type()) {
+						mark(x)
+					}
+				case *ssa.Field:
+					if isUnsafePtr(x.Type()) {
+						mark(x)
+					}
+				case *ssa.FieldAddr:
+					if raw[x.X] {
+						mark(x)
+					}
+				case *ssa.IndexAddr:
+					if raw[x.X] {
+						mark(x)
+					}
+				case *ssa.Phi:
+					for _, ed := range x.Edges {
+						if raw[ed] {
+							mark(x)
+						}
+					}
+				}
+			}
+		}
+	}
+	rawCache[fn] = raw
+	return raw
 }
 
 // ---------------------------------------------------------------------------------------------
@@ -1053,6 +1247,7 @@ func (e *Engine) makeSlice(fr *frame, st *State, x *ssa.MakeSlice) Value {
 	st.assume(c.Slt(cp, c.Const(64, 1<<40)))
 	r := e.newRegion()
 	c.zeroRegion(&st.heap, r, et)
+	st.ext = append(st.ext, extent{r, c.Const(64, 0), c.Mul(cp, c.Const(64, uint64(sizeof(et))))})
 	return Slice{Ptr{r, c.Const(64, 0)}, ln, cp}
 }
 
@@ -1208,7 +1403,7 @@ func (e *Engine) typeAssert(fr *frame, st *State, x *ssa.TypeAssert) Value {
 			val = c.Zero(at)
 		} else {
 			val = c.Load(&st.heap, iv.P, 0, at)
-			e.assumeLoaded(st, val)
+			e.assumeLoaded(st, val, at)
 		}
 	}
 	if x.CommaOk {
